@@ -281,6 +281,9 @@ class C07(c01.C01):
       'outside the model: pg.Ref sharing (exempted by the property), value specs',
       'oracle-only (no model, no correspondence): pg.Functor instances, pg.DNA bound to a DNASpec, hyper '
       'primitives, symbolized / wrapped user classes with their own copy protocol (harness/c07lib.py)',
+      'modelled, not verified: the pg.clone dispatcher and the child loop of _sym_clone for containers inside tuples / '
+      'plain lists / plain dicts (PgModel/CloneVal.lean; values are trees, deepcopy memo and override are not modelled), '
+      'tied by driver op clonev: which mutable objects of the real clone are objects of the real original',
   ]
 
   def generate(self, rng, tier):
